@@ -85,7 +85,8 @@ fn c02(cx: &mut Ctx<'_, '_>) {
     let cfg = &an.case.cfg;
     for a in &an.attempts {
         let Some(info) = an.sc.get(&a.sc_uid) else { continue };
-        let word: Vec<&Rec> = a.evs.iter().map(|&i| an.ev(i)).collect();
+        // Log events (tracing integration) are governed by C20, not by this grammar
+        let word: Vec<&Rec> = a.evs.iter().map(|&i| an.ev(i)).filter(|r| !matches!(r.is_sc(), Some(ScEv::Log(_)))).collect();
         let sev = |p: usize| word.get(p).and_then(|r| r.is_sc());
         let errs: std::cell::RefCell<Vec<(String, String)>> = std::cell::RefCell::new(Vec::new());
         let fail = |sig: &str, msg: String| errs.borrow_mut().push((sig.to_owned(), msg));
